@@ -55,6 +55,20 @@ def main():
                 bad += 1
             print("%-52s %-12s fired=%s crashed=%s %ss" % (m["id"], verdict, fired, crashed, dt), flush=True)
             res[m["id"]] = {"verdict": verdict, "fired": fired, "crashed": crashed, "keys": keys[:6], "expected": sorted(exp)}
+    # entries that need attention are run once more, alone: the compile-fail witnesses share a cargo target directory with the
+    # fact builds and can pick up another worker's artefacts when many builds overlap
+    again = [m for m in sel if res[m["id"]]["verdict"] in ("FALSE ALARM", "MISSED", "ERROR")]
+    for m in again:
+        m, fired, crashed, skipped, keys, dt = one(m)
+        exp = set(m.get("expect", []))
+        if m.get("kind") == "neutral":
+            verdict = "OK (silent)" if not fired and not crashed else "FALSE ALARM"
+        else:
+            verdict = "CAUGHT" if (exp & set(fired)) or (not exp and fired) else ("ERROR" if crashed else "MISSED")
+        if verdict != res[m["id"]]["verdict"]:
+            print("%-52s %-12s (alone) fired=%s" % (m["id"], verdict, fired), flush=True)
+            bad -= verdict in ("OK (silent)", "CAUGHT")
+        res[m["id"]] = {"verdict": verdict, "fired": fired, "crashed": crashed, "keys": keys[:6], "expected": sorted(exp)}
     path = os.path.join(HERE, "mutants", "campaign.json")
     allres = json.load(open(path)) if os.path.exists(path) else {}
     allres.update(res)
